@@ -52,7 +52,7 @@ class C06(Prop):
             from .c14 import gen_rows_over
 
             layout = F.gen_fasta(rng, maxlen=40)
-            buf = rng.choice([1, 2, 3, 5, 7])
+            buf = rng.choice([1, 2, 3, 5, 7, 64, 130])
             rows = gen_rows_over(rng, layout, rng.randint(1, 6), strands=(1, -1), maxgap=rng.choice([buf, 2 * buf, 3 * buf + 1, 40]))
             yield {"gen": "fasta+agp", "kind": "stream", "layout": layout, "data": F.render(layout), "buf": buf,
                    "scaffolds": [{"name": "SUPER_1", "rows": rows}]}
